@@ -493,7 +493,13 @@ func (ms *MidState) reviseFileContractElement(fce types.FileContractElement, rev
 
 func (ms *MidState) resolveFileContractElement(fce types.FileContractElement, valid bool, txid types.TransactionID) {
 	fced := ms.recordFileContractElement(fce.ID)
-	fced.FileContractElement = fce.Copy()
+	if fced.Revision == nil {
+		// NOTE: if the contract was revised earlier in this block, fce is the
+		// revised element; the diff must keep the pre-block element (its
+		// revision is already recorded), or reverting the block would restore
+		// the revised contract instead of the original one.
+		fced.FileContractElement = fce.Copy()
+	}
 	fced.Resolved = true
 	fced.Valid = valid
 	ms.spends[fce.ID] = txid
